@@ -110,6 +110,14 @@ CLAIMED = {
         "enumeration; counts, des_vars, decodes with a fresh processor; out-of-range values must be rejected.",
    note=BASE + "An empty restricted space may fail explicitly (RuntimeError). F2 fixed by b7e31b6.",
    technique="Coq theorems about an extracted Gallina model + differential correspondence with the implementation", design="§6 C15"),
+ 'C10': dict(
+   text="Theorems: a decode table accepted by the extracted checker coding_ok consists of valid matrices (ValidM) with corrected "
+        "vectors in range and inactive entries canonical, is idempotent, onto the valid matrices and injective (equal corrected "
+        "vectors, equal matrices); the verdict function is 0 exactly when coding_ok holds. For every registered encoder factory x "
+        "imputer the decode table over the declared space, out-of-range and over-long vectors is built from get_matrix per "
+        "existence pattern and submitted to the checker; get_all_design_vectors and the two-used-values rule are compared too.",
+   note=BASE + "Onto-ness is decided per observed table (a theorem about that table), not proved once per encoder family. Known findings K5, K6, K16 (F7), K17-K21.",
+   technique="Coq theorems about an extracted Gallina model + differential correspondence with the implementation", design="§6 C10"),
 }
 NA_REASON = "machinery under construction in this round; not yet claimed"
 
